@@ -573,6 +573,16 @@ func (e *enumeration) enumBM(thorough bool) {
 					j.Links = append(j.Links, [2]int{x, 1})
 				}
 				e.jobs = append(e.jobs, j)
+				if k1 == k2 && soCtor(k2, 1, a2) != soCtor(k2, 0, a2) {
+					// the same kind twice with DIFFERENT parameters (whatever numbers instances per kind must not
+					// key on the whole constructor string), in both orders
+					for _, vs := range [][2]int{{0, 1}, {1, 0}} {
+						j2 := j
+						j2.Group = "so-same-kind-different-parameters"
+						j2.SOs = []string{soCtor(k1, vs[0], a1), soCtor(k2, vs[1], a2)}
+						e.jobs = append(e.jobs, j2)
+					}
+				}
 			}
 		}
 	}
